@@ -20,7 +20,7 @@ import pathlib
 import subprocess
 import sys
 import types
-from collections.abc import Mapping
+from collections.abc import Mapping, MutableMapping
 
 import numpy as np
 import yaml
@@ -43,7 +43,12 @@ RULE = (
     "distinct = (start state, sequence of operation kinds); histories are also counted individually "
     "(coverage.histories, coverage.distinct_nontrivial_histories); plus wide / deep mapping histories (thousands of sibling keys, "
     "100+ levels), neutral public calls after every operation of every other random history, QUANTEM_* environment variables set "
-    "around refreshes, Mapping types for set, and fresh-interpreter cases that locate user files through QUANTEM_CONFIG / HOME"
+    "around refreshes, Mapping types for set, and fresh-interpreter cases that locate user files through QUANTEM_CONFIG / HOME; "
+    "value containers: the mappings given to update_defaults (half of the random histories, the deep family, and the bounded-exhaustive "
+    "'maptypes' cases = every 2-operation prefix that contains an update_defaults, followed by refresh and two sets, from all three start "
+    "states, under 9 container schemes) are built from dict, OrderedDict, defaultdict, MappingProxyType, ChainMap (one layer / two layers with "
+    "shadowed entries), UserDict, a read-only Mapping class and a MutableMapping class, a different type at every nesting depth, mixed with "
+    "plain dicts; the same types as the argument of set and as the argument of the neutral update() of the store with a copy of itself"
 )
 ASSUMPTIONS = [
     "QUANTEM_CONFIG is the worker's private directory (under ctx.tmp, empty at start and after every history; no environment variable is changed); histories write user configuration files (*.yaml, *.yml, *.json: partial nested sections, both key spellings, block and flow style, several files, empty / comment-only / null / {} files) into it and call refresh() (reads that directory), refresh(path=<dir as str or Path>), refresh(path=<one file>) and refresh(path=<missing>)",
@@ -56,7 +61,8 @@ ASSUMPTIONS = [
     "the key 'device' is only used at top level (update() validates it at any depth)",
     "QUANTEM_* environment variables (incl. QUANTEM_DEVICE=cuda:7) are set around 30% of the random refreshes and restored: they are not a configuration source (collect_env is not used by refresh), so they must not change the result; QUANTEM_CONFIG / HOME are exercised in fresh interpreters (import_env cases) whose store after import and after refresh() must equal library defaults + user files",
     "neutral calls (get with default / override_with, repr, deepcopy, merge, collect, collect_yaml, validate_device('cpu'), get_device, canonical_name, empty set / with / update_defaults, update of the store with a merged copy of itself, setting a leaf to the value get returns, write / yaml dump) are made after every operation of every other random history and must not change what get returns",
-    "set accepts any Mapping (dict, OrderedDict, MappingProxyType are generated); update_defaults needs a mutable mapping on the unchanged tree (it assigns into it), so only dicts are passed there",
+    "set accepts any Mapping as its argument (dict, OrderedDict, MappingProxyType, ChainMap with one / two layers, UserDict, a read-only Mapping class, a MutableMapping class are generated; item order is the mapping's iteration order); update_defaults needs a mutable mapping at top level on the unchanged tree (it assigns into it): dict, OrderedDict, defaultdict, ChainMap, UserDict, MutableMapping class at top level, all nine types (also the read-only ones) for nested values at every depth, which update()/merge()/refresh() treat as namespaces through the Mapping protocol (isinstance(v, Mapping)); the model is stepped with the plain-dict spelling of the same content (shadowed lower-layer ChainMap entries are not content)",
+    "a nested non-dict Mapping as a *value* of set (mapping or keyword form) is not generated: the unchanged code stores the object itself as an opaque value (read-only ones then reject writes below, a later update_defaults replaces it) -- it is not treated as a namespace there",
     "wide / deep cases: 3000..20000 sibling keys with alternating spellings through set, update_defaults, with-blocks, user files and refresh; nesting depth 120..180 (far below the interpreter recursion limit that bounds the recursive update on the unchanged tree)",
 ]
 BUDGET = {"quick": {"soft_s": 300}, "thorough": {"soft_s": 1200}}
@@ -121,6 +127,109 @@ DEVICES = ["cpu", "CPU", "cuda", "cuda:0", "cuda:7", "gpu", "GPU", "mps", 0, 3, 
            {"torch_device": "cpu"}, {"torch_device": "cuda:0"}, {"torch_device": "cuda"}, {"torch_device": "mps"}, {"torch_device": "meta"}]
 
 
+class _ROMap(Mapping):
+    """a user-defined read-only Mapping (not a dict subclass)"""
+
+    def __init__(self, d):
+        self._d = dict(d)
+
+    def __getitem__(self, k):
+        return self._d[k]
+
+    def __iter__(self):
+        return iter(self._d)
+
+    def __len__(self):
+        return len(self._d)
+
+    def __repr__(self):
+        return "_ROMap(%r)" % (self._d,)
+
+
+class _MutMap(MutableMapping):
+    """a user-defined MutableMapping (not a dict subclass)"""
+
+    def __init__(self, d):
+        self._d = dict(d)
+
+    def __getitem__(self, k):
+        return self._d[k]
+
+    def __setitem__(self, k, v):
+        self._d[k] = v
+
+    def __delitem__(self, k):
+        del self._d[k]
+
+    def __iter__(self):
+        return iter(self._d)
+
+    def __len__(self):
+        return len(self._d)
+
+    def __repr__(self):
+        return "_MutMap(%r)" % (self._d,)
+
+
+MAPCODES = ["dict", "proxy", "ordered", "chain", "user", "defaultdict", "ro", "chain2", "mu"]
+TOPCODES = [c for c in MAPCODES if c not in ("proxy", "ro")]  # update_defaults assigns into its argument
+
+
+def make_mapping(code, d):
+    """the content of the plain dict d (same items, same iteration order) held by another Mapping type"""
+    if code == "dict":
+        return d
+    if code == "ordered":
+        return collections.OrderedDict(d)
+    if code == "defaultdict":
+        return collections.defaultdict(dict, d)
+    if code == "proxy":
+        return types.MappingProxyType(d)
+    if code == "chain":
+        return collections.ChainMap({}, d)
+    if code == "chain2":  # two layers: the upper one holds the first half, the lower one everything (first half shadowed)
+        keys = list(d)
+        first = keys[: (len(keys) + 1) // 2]
+        lower = {k: ("<shadowed by the upper layer>" if k in first else d[k]) for k in keys}
+        return collections.ChainMap({k: d[k] for k in first}, lower)
+    if code == "user":
+        return collections.UserDict(d)
+    if code == "ro":
+        return _ROMap(d)
+    if code == "mu":
+        return _MutMap(d)
+    raise HarnessError("unknown mapping type %r" % (code,))
+
+
+def wrap_tree(d, wrap):
+    """plain nested dict -> the same content with wrap['top'] as the outer container and the types wrap['nested']
+    (cycled, depth-first pre-order) for the nested mappings"""
+    if not wrap:
+        return d
+    codes = itertools.cycle(wrap.get("nested") or ["dict"])
+
+    def rec(x):
+        out = {}
+        for k, v in x.items():
+            if isinstance(v, dict):
+                c = next(codes)
+                out[k] = make_mapping(c, rec(v))
+            else:
+                out[k] = v
+        return out
+
+    return make_mapping(wrap.get("top", "dict"), rec(d))
+
+
+def scheme_wrap(k, shift=0):
+    k = (k + shift) % len(MAPCODES)
+    return {"top": TOPCODES[k % len(TOPCODES)], "nested": MAPCODES[k:] + MAPCODES[:k]}
+
+
+UD_ALPHA = [7, 8, 9, 10, 11]  # alphabet entries that are update_defaults
+MAPTYPE_TAIL = [12, 3, 5]  # refresh, then a set below each of the two namespaces
+
+
 def plan(tier, seed):
     specs = []
     depth = 3 if tier == "quick" else 4
@@ -137,8 +246,11 @@ def plan(tier, seed):
             specs.append({"kind": "wide_deep", "store": store, "family": fam, "width": [3000, 20000][r % 2] if q else int(2000 + 4000 * r), "depth": [120, 180][r % 2] if q else 60 + 10 * r, "neutral": bool(r % 2)})
     for r in range(2 if q else 6):
         specs.append({"kind": "import_env", "store": "fresh_interpreter", "how": ["QUANTEM_CONFIG", "HOME"][r % 2], "rep": r})
+    for store in STORES:
+        for k in range(len(MAPCODES)):
+            specs.append({"kind": "maptypes", "store": store, "scheme": k})
     for sp in specs:  # rare kinds carry required monitors: never dropped by the soft time budget
-        if sp["kind"] in ("wide_deep", "import_env"):
+        if sp["kind"] in ("wide_deep", "import_env", "maptypes"):
             sp["_must_run"] = True
     # interleave so that every worker sees all kinds early (soft budget cuts the tail, not a kind)
     rng = np.random.default_rng([seed, 19, 7])
@@ -397,8 +509,8 @@ class Runner:
         mt = op.get("mapping_type")
         if mt == "ordered":
             arg = collections.OrderedDict(items)
-        elif mt == "proxy":
-            arg = types.MappingProxyType(arg)
+        elif mt:
+            arg = make_mapping(mt, arg)
         return items, arg, {}
 
     def _model_items(self, op, items):
@@ -501,7 +613,10 @@ class Runner:
 
     def op_ud(self, op):
         new = cp(op["new"])
-        self.model.update_defaults(cp(new))
+        self.model.update_defaults(cp(new))  # the model sees the content as plain dicts
+        if op.get("wrap"):
+            new = wrap_tree(new, op["wrap"])
+            self.ctx.count("update_defaults_with_other_mapping_types")
         self.C.update_defaults(new, **self.kw_cd)
         for k, v in op["new"].items():
             self._note_write(k, v)
@@ -696,7 +811,11 @@ class Runner:
             C.get("anything", override_with=5, **kc)
             return "get_override_with"
         if c == 2:
-            repr(self.cfg), str(self.dfl), copy.deepcopy(self.cfg)
+            repr(self.cfg), str(self.dfl)
+            try:
+                copy.deepcopy(self.cfg)
+            except TypeError:  # only if the store holds a foreign un-copyable object; the comparison that follows judges the content
+                self.ctx.count("store_not_deep_copyable")
             return "repr_deepcopy"
         if c == 3:
             C.merge(self.cfg), C.merge(*self.dfl) if self.dfl else None
@@ -719,6 +838,10 @@ class Runner:
             return "empty_set"
         if c == 8:
             C.update({}, self.cfg), C.update(self.cfg, C.merge(self.cfg))  # the store merged with a copy of itself
+            if rng.random() < 0.5:  # ... and with a copy of itself held by other Mapping types at every depth
+                k = int(rng.integers(len(MAPCODES)))
+                C.update(self.cfg, wrap_tree(C.merge(self.cfg), {"top": MAPCODES[k], "nested": MAPCODES[k + 1:] + MAPCODES[: k + 1]}))
+                return "update_with_itself_other_mapping_types"
             return "update_with_itself"
         if c == 9:
             C.update_defaults({}, **self.kw_cd)
@@ -734,7 +857,10 @@ class Runner:
             with contextlib.redirect_stdout(io.StringIO()):
                 C.write(os.path.join(self.ctx.tmp, "written-config.yaml"))
             return "write"
-        yaml.safe_dump(copy.deepcopy(self.cfg))
+        try:
+            yaml.safe_dump(copy.deepcopy(self.cfg))
+        except (TypeError, yaml.YAMLError):  # only if the store holds a foreign object; the comparison that follows judges the content
+            self.ctx.count("store_not_dumpable")
         return "dump"
 
     def _with(self, op, depth):
@@ -927,13 +1053,16 @@ def _rand_ops(rng, store, n):
                 items = [[leaf_key(), value()] for _ in range(k)]
             op = {"op": "set", "form": form, "items": items}
             if form == "map" and rng.random() < 0.25:
-                op["mapping_type"] = ["ordered", "proxy"][int(rng.integers(2))]
+                op["mapping_type"] = MAPCODES[1 + int(rng.integers(len(MAPCODES) - 1))]
             ops.append(op)
         elif c < 0.36:
             ns = sp(s["NS2"])
             ops.append({"op": "set", "form": "map", "nested": True, "items": [[ns, {sp(s["N2L"]): value(), sp(s["N2S"]): {sp(s["N2SL"]): value()}}]]})
         elif c < 0.52:
-            ops.append({"op": "ud", "new": nested_defaults()})
+            op = {"op": "ud", "new": nested_defaults()}
+            if rng.random() < 0.5:  # the same content in other Mapping types, a (possibly) different one at every depth
+                op["wrap"] = {"top": TOPCODES[int(rng.integers(len(TOPCODES)))], "nested": [MAPCODES[int(j)] for j in rng.integers(len(MAPCODES), size=4)]}
+            ops.append(op)
         elif c < 0.60:
             how = ["default", "default", "path_dir", "path_file", "path_missing"][int(rng.integers(5))] if files else ["default", "path_dir", "path_missing"][int(rng.integers(3))]
             op = {"op": "refresh", "how": how}
@@ -960,7 +1089,10 @@ def _rand_ops(rng, store, n):
                 items = [[leaf_key(), value()] for _ in range(k)]
             if rng.random() < 0.15:
                 items.append(["device", "cpu"])
-            ops.append({"op": "with", "form": form, "items": items})
+            op = {"op": "with", "form": form, "items": items}
+            if form == "map" and rng.random() < 0.25:
+                op["mapping_type"] = MAPCODES[1 + int(rng.integers(len(MAPCODES) - 1))]
+            ops.append(op)
             open_ += 1
         elif c < 0.88 and open_ > 0:
             ops.append({"op": "raise" if rng.random() < 0.3 else "end"})
@@ -1038,7 +1170,7 @@ def _wide_deep_ops(spec, rng):
         return [
             {"op": "set", "form": "map", "items": [[deep + ".leaf_x", 0]]},
             {"op": "get", "key": deep_alt + ".leaf-x"},
-            {"op": "ud", "new": nested},
+            {"op": "ud", "new": nested, **({"wrap": scheme_wrap(D)} if spec.get("neutral") else {})},  # every level another Mapping type
             {"op": "with", "form": "map", "items": [[deep_alt + ".leaf-x", 2], [deep + ".other", 3]]},
             {"op": "set", "form": "kw", "items": [[deep_alt.replace("-", "_").replace(".", "__") + "__third", 4]]},
             {"op": "end"},
@@ -1134,7 +1266,30 @@ def run_case(spec, idx, ctx):
     prologue = SEED_PROLOGUE(sch) if store == "seeded" else []
     nontriv = 0
     kinds_seen = None
-    if spec["kind"] == "exh":
+    if spec["kind"] == "maptypes":
+        # every 2-operation prefix that contains an update_defaults, its mappings (and those of the start state) held by
+        # other Mapping types -- a different one at every nesting depth -- then refresh and a set below each namespace
+        alpha = st["alpha"][store]
+        k = spec["scheme"]
+
+        def wrapped(ops, shift):
+            return [dict(op, wrap=scheme_wrap(k, shift + j)) if op["op"] == "ud" else op for j, op in enumerate(ops)]
+
+        n = 0
+        for a, b in itertools.product(range(NALPHA), repeat=2):
+            if a not in UD_ALPHA and b not in UD_ALPHA:
+                continue
+            seq = [a, b, *MAPTYPE_TAIL]
+            ok, r = _run_history(ctx, store, wrapped(prologue, 3), wrapped([alpha[i] for i in seq], 0), "maptypes:%s:scheme%d:%s" % (store, k, seq))
+            n += 1
+            nontriv += bool(r.nontrivial)
+            if kinds_seen is None:
+                kinds_seen = r.kinds[:]
+            if not ok and len(ctx._case["viol"]) >= 6:
+                break
+        ctx.observe(store=store, scheme=scheme_wrap(k), histories=n, nontrivial_histories=nontriv, first_history_kinds=kinds_seen)
+        ctx.nontrivial(("maptypes", store, k), nontriv > 0)
+    elif spec["kind"] == "exh":
         alpha = st["alpha"][store]
         a, b = spec["prefix"]
         tails = itertools.product(range(NALPHA), repeat=spec["depth"] - 2)
@@ -1181,6 +1336,7 @@ def summarize(all_cases, counters, extras):
         "user_files_written": int(counters.get("user_files_written", 0)),
         "refreshes_with_user_files": int(counters.get("refresh_with_user_files", 0)),
         "refreshes_with_quantem_env_vars_set": int(counters.get("refresh_with_env_vars", 0)),
+        "update_defaults_with_other_mapping_types": int(counters.get("update_defaults_with_other_mapping_types", 0)),
     }
     if extras:
         out["device_availability"] = extras[0].get("device_availability")
